@@ -223,17 +223,14 @@ def kindMatch : FKind → Kind → Bool
   | .dir, .dir => true
   | .file _, .reg => true
   | .symlink _, .lnk => true
-  | .special _ _, .blk => true
-  | .special _ _, .chr => true
-  | .special _ _, .fifo => true
-  | .special _ _, .sock => true
+  | .special k' _, k => k' == k && (k == .blk || k == .chr || k == .fifo || k == .sock)
   | _, _ => false
 
 /-- the call is one the unpacker makes for a tree node of kind `k` -/
 def Compat : Syscall → Kind → Prop
   | .mkdir _ _, k => k = .dir
   | .symlink _ _, k => k = .lnk
-  | .mknod _ _ _ _, k => k = .blk ∨ k = .chr ∨ k = .fifo ∨ k = .sock
+  | .mknod _ kd _ _, k => k = kd ∧ (k = .blk ∨ k = .chr ∨ k = .fifo ∨ k = .sock)
   | .openExcl _ _, k => k = .reg
   | .openTrunc _ _, k => k = .reg
   | .setxattr _ _ _ nf, k => nf = true ∨ k ≠ .lnk
@@ -312,7 +309,8 @@ theorem step_shape {fs fs' : Fs} {R : PathC} {sc : Syscall} (h : step fs R sc = 
       refine Or.inr ⟨key, none, _, hr, rfl, Or.inl ⟨rfl, ?_⟩⟩
       intro k hk
       simp only [Compat] at hk
-      rcases hk with rfl | rfl | rfl | rfl <;> rfl
+      obtain ⟨rfl, h⟩ := hk
+      rcases h with rfl | rfl | rfl | rfl <;> rfl
   | openExcl p m =>
     simp only [step] at h
     split at h
@@ -629,17 +627,20 @@ theorem genFilesL_nosys (rn : Bytes) : ∀ (l : List TNode) (anc : List Bytes) (
     · exact genFilesL_nosys rn cs anc sc h1
 end
 
-theorem attrOps_compat {fl : Flags} {k : Kind} {p : Bytes} {a : Attr} {sc : Syscall}
-    (h : Ev.sys sc ∈ attrOps fl k p a) : sc.path = p ∧ Compat sc k := by
-  unfold attrOps at h
+theorem xattrOps_compat {k : Kind} {p : Bytes} {a : Attr} {sc : Syscall}
+    (h : Ev.sys sc ∈ (xattrOps p a).evs) : sc.path = p ∧ Compat sc k := by
+  unfold xattrOps at h
+  split at h <;>
+  · simp only [List.mem_map] at h
+    obtain ⟨kv, _, e⟩ := h
+    cases e
+    simp [Syscall.path, Compat]
+
+theorem attrTail_compat {fl : Flags} {k : Kind} {p : Bytes} {a : Attr} {sc : Syscall}
+    (h : Ev.sys sc ∈ attrTail fl k p a) : sc.path = p ∧ Compat sc k := by
+  unfold attrTail at h
   simp only [List.mem_append] at h
-  rcases h with ((h | h) | h) | h
-  · split at h
-    · simp only [List.mem_map] at h
-      obtain ⟨kv, _, e⟩ := h
-      cases e
-      simp [Syscall.path, Compat]
-    · simp at h
+  rcases h with (h | h) | h
   · split at h
     · simp at h; subst h; simp [Syscall.path, Compat]
     · simp at h
@@ -652,6 +653,15 @@ theorem attrOps_compat {fl : Flags} {k : Kind} {p : Bytes} {a : Attr} {sc : Sysc
       simp at hc
       simp [Syscall.path, Compat, hc.2]
     · simp at h
+
+theorem attrOps_compat {fl : Flags} {k : Kind} {p : Bytes} {a : Attr} {sc : Syscall}
+    (h : Ev.sys sc ∈ (attrOps fl k p a).evs) : sc.path = p ∧ Compat sc k := by
+  unfold attrOps at h
+  rcases Out.mem_seq h with h1 | h1
+  · split at h1
+    · exact xattrOps_compat h1
+    · simp at h1
+  · exact attrTail_compat h1
 
 mutual
 theorem setAttribs_ops (rn : Bytes) (fl : Flags) : ∀ (x : TNode) (comps : List Bytes) (sc : Syscall),
@@ -1072,16 +1082,27 @@ theorem genFiles_root_files (t : TNode) (f : FileEnt) (h : f ∈ (genFiles t.nam
     · simp only [TNode.kind, hk, if_false]
       exact genFiles_files _ _ [] f h
 
+theorem fillFiles_mem {sc : Syscall} : ∀ {l : List FileEnt}, Ev.sys sc ∈ (fillFiles l).evs →
+    ∃ f ∈ l, sc = .openTrunc f.path f.data
+  | [], h => by simp [fillFiles] at h
+  | f :: r, h => by
+    unfold fillFiles at h
+    rcases Out.mem_seq h with h1 | h1
+    · simp at h1
+      exact ⟨f, by simp, h1⟩
+    · obtain ⟨g, hg, e⟩ := fillFiles_mem h1
+      exact ⟨g, by simp [hg], e⟩
+
 theorem fillUnpacked_ops (ord : List FileEnt → List FileEnt) (hord : OrdOK ord) (t : TNode) (sc : Syscall)
     (h : Ev.sys sc ∈ (fillUnpacked ord t).evs) : OpFor (visitRoot t) sc := by
   unfold fillUnpacked at h
   simp only at h
   split at h
   · exact absurd h (genFiles_nosys _ t [] sc)
-  · rcases List.mem_append.1 h with h1 | h1
+  · rcases Out.mem_seq h with h1 | h1
     · exact absurd h1 (genFiles_nosys _ t [] sc)
-    · obtain ⟨f, hf, e⟩ := List.mem_map.1 h1
-      cases e
+    · obtain ⟨f, hf, e⟩ := fillFiles_mem h1
+      subst e
       obtain ⟨comps, hm, hg, hp⟩ := genFiles_root_files t f (hord _ f hf)
       exact ⟨comps, .reg, hm, hg, hp, rfl⟩
 
@@ -1091,7 +1112,7 @@ theorem unpackTree_ops (ord : List FileEnt → List FileEnt) (hord : OrdOK ord) 
   rw [Out.mem_syscalls] at h
   unfold unpackTree at h
   rw [hs] at h
-  simp only at h
+  simp only [planSorted] at h
   rcases Out.mem_seq h with h1 | h1
   · exact restoreFstree_ops fl t' sc h1
   · rcases Out.mem_seq h1 with h2 | h2
@@ -1378,7 +1399,7 @@ theorem unpackTree_ordered (ord : List FileEnt → List FileEnt) (hord : OrdOK o
   refine ⟨c, hpath, hg, ?_⟩
   unfold unpackTree at h
   rw [hs] at h
-  simp only at h
+  simp only [planSorted] at h
   have inCreate : ∀ r, (restoreFstree fl t').evs = l₁ ++ Ev.sys sc :: r →
       ∀ pre, pre <+: c → pre ≠ [] → pre ≠ c → ∃ m, Ev.sys (.mkdir (joinSlash pre) m) ∈ l₁ := by
     intro r hr pre hp1 hp2 hp3
